@@ -112,9 +112,10 @@ fn eval_add_expr(
     let mut op1 = eval_mul_expr(add.operand(), node.clone(), context)?;
     for (op, op2) in add.operations() {
         let op2 = eval_mul_expr(op2, node.clone(), context)?;
+        let (a, b) = (f64::try_from(&op1)?, f64::try_from(&op2)?);
         op1 = match op {
-            expr::AdditiveOperator::Add => op1 + op2,
-            expr::AdditiveOperator::Sub => op1 - op2,
+            expr::AdditiveOperator::Add => (a + b).as_value(),
+            expr::AdditiveOperator::Sub => (a - b).as_value(),
         };
     }
     Ok(op1)
@@ -128,10 +129,11 @@ fn eval_mul_expr(
     let mut op1 = eval_unary_expr(mul.operand(), node.clone(), context)?;
     for (op, op2) in mul.operations() {
         let op2 = eval_unary_expr(op2, node.clone(), context)?;
+        let (a, b) = (f64::try_from(&op1)?, f64::try_from(&op2)?);
         op1 = match op {
-            expr::MultiplicativeOperator::Mul => op1 * op2,
-            expr::MultiplicativeOperator::Div => op1 / op2,
-            expr::MultiplicativeOperator::Mod => op1 % op2,
+            expr::MultiplicativeOperator::Mul => (a * b).as_value(),
+            expr::MultiplicativeOperator::Div => (a / b).as_value(),
+            expr::MultiplicativeOperator::Mod => (a % b).as_value(),
         };
     }
     Ok(op1)
@@ -147,7 +149,7 @@ fn eval_unary_expr(
     if inv == 0 {
         Ok(value)
     } else {
-        Ok(-value)
+        Ok((-f64::try_from(&value)?).as_value())
     }
 }
 
